@@ -541,6 +541,38 @@ class FG:
         if r.random() < 0.5: self.emit(r.choice(['sub', 'xor', 'add']), self.dst64(), R(x1), R(x2))
         self.p.features.add('load:reload-' + t1 + t2)
 
+    def g_overlap(self):
+        """store / access of another width overlapping it (contained, containing, straddling an end) / store
+        again or load back, all at constant displacements of one block: what dead-store elimination and
+        load forwarding decide from (disp, size) pairs"""
+        r = self.rng
+        t1, t2 = r.sample(['i8', 'u16', 'i32', 'i64', 'u8', 'i16', 'u32', 'u64'], 2)
+        s1, s2 = TSIZE[t1], TSIZE[t2]
+        cands = [p for p in self.P if p.writable and p.size >= max(s1, s2)]
+        if not cands or len(self.X) < 2: return self.g_alu64()
+        tops = [p for p in cands if p.reg.startswith(('ta', 'q'))]
+        p = r.choice(tops) if tops and r.random() < 0.7 else r.choice(cands)
+        for _ in range(20):
+            d1 = r.randrange(0, p.size - s1 + 1)
+            d2 = d1 + r.randrange(-s2 + 1, s1)
+            if 0 <= d2 <= p.size - s2: break
+        else:
+            return self.g_alu64()
+        m1, m2 = Mem(t1, d1, p.reg), Mem(t2, d2, p.reg)
+        self.emit('mov', m1, self.X_())
+        k = r.random()
+        if k < 0.5:
+            self.emit('mov', self.X_(), m2)          # read of a part: keeps the first store alive
+            self.emit('mov', Mem(t1, d1, p.reg), self.X_())
+        elif k < 0.8:
+            self.emit('mov', m2, self.X_())          # partial overwrite, then the first location read back
+            self.emit('mov', self.X_(), Mem(t1, d1, p.reg))
+        else:
+            self.emit('mov', m2, self.X_())
+            self.emit('mov', Mem(t1, d1, p.reg), self.X_())
+            self.emit('mov', self.X_(), Mem(t2, d2, p.reg))
+        self.p.features.add('mem:overlap-mixed-width')
+
     def g_cmp(self):
         r = self.rng
         if r.random() < 0.5:
@@ -882,7 +914,7 @@ class FG:
     def straight(self, n):
         r = self.rng
         kinds = [(self.g_alu64, 14), (self.g_alu32, 12), (self.g_neg, 2), (self.g_ext, 6), (self.g_cmp, 7),
-                 (self.g_ext_chain, 3), (self.g_reload, 3),
+                 (self.g_ext_chain, 3), (self.g_reload, 3), (self.g_overlap, 5),
                  (self.g_shift, 7), (self.g_div, 7), (self.g_load, 8), (self.g_store, 9), (self.g_mov, 5),
                  (self.g_ovf, 2), (self.g_local_alloca, 2), (self.g_counted_loop, 3), (self.g_call_ext, 3),
                  (self.g_call_mir, self.opts.get('w_call', 4)), (self.g_self_call, 1)]
